@@ -79,6 +79,27 @@ struct C05 : vr::Driver {
         v.name = "pgscan";
         vs.push_back(v);
       }
+    // a kill action with always_continue=true and its own delay is NOT the stopping action: the action that stops the chain
+    // afterwards decides the pause (here: none of its own => the ruleset's delay)
+    for (int d : {2, 3})
+      for (int p : {0, 4}) {
+        Variant v;
+        emc::RulesetCfg rs;
+        rs.name = "R0";
+        rs.delay = d;
+        rs.groupNames = {"g0"};
+        rs.groups = {{"R0g0d0"}};
+        emc::ActionCfg k;
+        k.id = "K";
+        k.external = true;
+        k.ownDelay = p;
+        k.json = wrapJson("kill_by_memory_size_or_growth", p, ",\"always_continue\":\"true\"");
+        rs.actions.push_back(k);
+        rs.actions.push_back({"R0a1"});
+        v.cfg.rulesets.push_back(rs);
+        v.name = "always-continue kill, then a scripted stopper";
+        vs.push_back(v);
+      }
     // slow actions: the STOP arrives later than the tick started, and the pause counts from the STOP
     for (int d : {1, 2})
       for (int p : {-1, 1})
